@@ -122,6 +122,9 @@ func canMatchEmpty(n node, visiting map[node]bool) bool {
 		return canMatchEmpty(n.node, visiting)
 	case *lookaheadGroup:
 		return true
+	case *reference:
+		// A reference to the end-of-input token matches it without consuming anything.
+		return n.typ == lexer.EOF
 	}
 	return false
 }
@@ -134,6 +137,8 @@ func yieldsValueOnEmpty(n node, visiting map[node]bool) bool {
 	switch n := n.(type) {
 	case *literal:
 		return n.s == "" && n.t == lexer.EOF
+	case *reference:
+		return n.typ == lexer.EOF
 	case *capture:
 		return canMatchEmpty(n.node, visiting)
 	case *strct:
